@@ -58,6 +58,10 @@ type (
 		XFF       bool    `json:"xff,omitempty"`
 		IPF       *gIPF   `json:"ipf,omitempty"`
 		Rules     []gRule `json:"rules"`
+		// IPHosts: the spec was generated with IP-literal host conditions in its vocabulary
+		// (genOpts.ipHosts); genReq then also draws request hosts that are IP literals.  Not
+		// part of the rendered YAML.
+		IPHosts bool `json:"ipHosts,omitempty"`
 	}
 	gReq struct {
 		Method     string      `json:"m"`
@@ -284,6 +288,41 @@ func stripPort(host string) string {
 		return h
 	}
 	return host
+}
+
+// refBracketReading: for a Host that is a bracketed IPv6 literal WITH a port
+// ("[2001:db8::1]:8080") the property's "port ignored" can be read in two ways: the host is
+// the bare address (what net.SplitHostPort returns, and what stripPort / the reference use)
+// or the bracketed literal as it would have been sent without a port ("[2001:db8::1]").  The
+// second reading is returned here (as a Host value without port, which stripPort leaves
+// untouched), so that a monitor can tell whether both readings route the request alike.
+// ok=false for every other host (names, IPv4 literals, bracketed literals without a port),
+// where the host with the port ignored is not in doubt.
+func refBracketReading(host string) (alt string, ok bool) {
+	if !strings.HasPrefix(host, "[") {
+		return "", false
+	}
+	h, _, err := net.SplitHostPort(host)
+	if err != nil {
+		return "", false
+	}
+	return "[" + h + "]", true
+}
+
+// reqHostClass: name / v4 / v6 (bracketed literal), "+port" when the Host carries a port.
+func reqHostClass(host string) string {
+	h, port := host, ""
+	if x, _, err := net.SplitHostPort(host); err == nil {
+		h, port = x, "+port"
+	}
+	h = strings.TrimSuffix(strings.TrimPrefix(h, "["), "]")
+	switch ip := net.ParseIP(h); {
+	case ip == nil:
+		return "name" + port
+	case ip.To4() != nil:
+		return "v4" + port
+	}
+	return "v6" + port
 }
 
 func refHostMatch(r *gRule, host string) (bool, string) {
@@ -514,6 +553,15 @@ var (
 	// the last two also accept the empty value, i.e. an absent header
 	genHdrRegexps = []string{`^can`, `^v[0-9]+$`, `prod|v1`, `^(|v1)$`, `.*`}
 	genBackends   = []string{"be-0", "be-1", "be-2", "be-3", "be-4", "be-5", "gone"}
+
+	// IP-literal hosts (genOpts.ipHosts).  Request side: what a client puts into Host when it
+	// addresses the server by address: an IPv4 address or a bracketed IPv6 literal, each with
+	// or without a port.  Rule side: exact hosts and regexps an operator writes for such
+	// literals: the bracketed form (what arrives when there is no port), the bare address,
+	// regexps accepting either form, one form only, any literal of a family.
+	genIPReqHosts    = []string{"[2001:db8::1]", "[2001:db8::2]", "[::1]", "10.0.0.1", "10.0.0.2", "127.0.0.1"}
+	genIPHosts       = []string{"[2001:db8::1]", "2001:db8::1", "[2001:db8::2]", "[::1]", "::1", "10.0.0.1", "127.0.0.1"}
+	genIPHostRegexps = []string{`^\[?2001:db8::[0-9a-f]+\]?$`, `^\[2001:db8::1\]$`, `^\[?::1\]?$`, `^\[.*\]$`, `^\[?[0-9a-f:]+\]?$`, `^10\.0\.0\.[0-9]+$`, `^[0-9.]+$`, `^(10\.0\.0\.1|\[?2001:db8::1\]?)$`}
 )
 
 func pick(rng *rand.Rand, ss []string) string { return ss[rng.Intn(len(ss))] }
@@ -543,6 +591,9 @@ type genOpts struct {
 	ipf      bool
 	maxRules int
 	maxPaths int
+	// ipHosts: about half of the rules get a host condition written for IP literals (see
+	// genIPHosts / genIPHostRegexps) and requests are drawn with IP-literal hosts too.
+	ipHosts bool
 }
 
 func genHeader(rng *rand.Rand) gHeader {
@@ -651,10 +702,28 @@ func genHostMatcher(rng *rand.Rand, r *gRule) {
 	}
 }
 
+// genIPHostMatcher gives the rule a host condition (exact, regexp or both) naming IP
+// literals.
+func genIPHostMatcher(rng *rand.Rand, r *gRule) {
+	r.Host, r.HostRegexp = "", ""
+	switch rng.Intn(5) {
+	case 0, 1:
+		r.Host = pick(rng, genIPHosts)
+	case 2, 3:
+		r.HostRegexp = pick(rng, genIPHostRegexps)
+	case 4:
+		r.Host = pick(rng, genIPHosts)
+		r.HostRegexp = pick(rng, genIPHostRegexps)
+	}
+}
+
 // genRule: one rule; n numbers the backends over the whole spec.
 func genRule(rng *rand.Rand, o genOpts, n *int) gRule {
 	r := gRule{}
 	genHostMatcher(rng, &r)
+	if o.ipHosts && rng.Intn(2) == 0 {
+		genIPHostMatcher(rng, &r)
+	}
 	np := 1 + rng.Intn(o.maxPaths)
 	for j := 0; j < np; j++ {
 		r.Paths = append(r.Paths, genPath(rng, o, n))
@@ -676,7 +745,7 @@ func genRule(rng *rand.Rand, o genOpts, n *int) gRule {
 }
 
 func genSpec(rng *rand.Rand, o genOpts) *gSpec {
-	s := &gSpec{}
+	s := &gSpec{IPHosts: o.ipHosts}
 	n := 0
 	nr := 1 + rng.Intn(o.maxRules)
 	for i := 0; i < nr; i++ {
@@ -749,6 +818,14 @@ func genReq(rng *rand.Rand, s *gSpec, withClient bool) gReq {
 	q.Host = pick(rng, append([]string{"c.org"}, genHosts...))
 	if rng.Intn(3) == 0 {
 		q.Host += pick(rng, []string{":80", ":8080"})
+	}
+	if s != nil && s.IPHosts && rng.Intn(5) < 3 {
+		// the server is addressed by address: IPv4 or bracketed IPv6 literal, with or
+		// without a port
+		q.Host = pick(rng, genIPReqHosts)
+		if rng.Intn(2) == 0 {
+			q.Host += pick(rng, []string{":80", ":8080"})
+		}
 	}
 	q.Path = pick(rng, append([]string{"/a/b/c/d", "/zz", "/a/x", "/a/x/yy", "/ab/c"}, genPaths...))
 	nh := rng.Intn(3)
